@@ -86,6 +86,10 @@ def subfieldTrack (q : Path) : List Trig := trackLoop q.reverse ++ [T q, C q]
 /-- the default `StoreField::track_field` (root store, `AtIndex`, `AtKeyed`) **before fix-c16-3** -/
 def defaultTrackOld (q : Path) : List Trig := [T q, C q]
 
+/-- what `StoreFieldIterator::iter_unkeyed` tracked **before fix-c16-4**: `this` and `children` of the
+collection, by hand, nothing above it -/
+def iterUnkeyedTrackOld (q : Path) : List Trig := [T q, C q]
+
 /-- `KeyedSubfield::track_field` **before fix-c16-3**; `parent` is `self.inner.path()` -/
 def keyedFieldTrackOld (parent q : Path) : List Trig := [T parent, T q, C q]
 
@@ -303,7 +307,7 @@ inductive RKind
   | plain   -- `.get()` / `.read()` / `.with(..)` / `.track()` + `read_untracked()` on the accessor (also through `Field` / `ArcField`)
   | omap    -- `OptionStoreExt::map` / `invert` on the `Option` field on the way, then `.get()` on the rest of the chain
   | iterK   -- `for item in keyed_field { item.get() }` (`KeyedSubfield::into_iter`)
-  | iterU   -- `for item in field.iter_unkeyed() { item.get() }` (`StoreFieldIterator::iter_unkeyed`)
+  | iterU   -- `for item in field.iter_unkeyed() { item.get() }` (`StoreFieldIterator::iter_unkeyed`, after fix-c16-4)
 deriving DecidableEq, Repr
 
 structure Eff where
@@ -507,10 +511,10 @@ def runKind (st : St) (e : Nat) (x : Eff) : St × Seen :=
     let r := trackAndRead st1 e x.chain
     readItems e x.chain Acc.key (latestKeys r.1.val (walk r.1 x.chain).2.vpos) r
   | .iterU =>
-    -- `iter_unkeyed`: tracks `this` and `children` of the field itself only, reads the length,
+    -- `iter_unkeyed`: `track_field()` (since fix-c16-4; before: `iterUnkeyedTrackOld`), reads the length,
     -- then every element is read through its `AtIndex`
     let r := walk st x.chain
-    let st1 := { r.1 with subs := [T r.2.tpath, C r.2.tpath].foldl (fun m t => subscribe m e t) r.1.subs }
+    let st1 := { r.1 with subs := r.2.trackList.foldl (fun m t => subscribe m e t) r.1.subs }
     let seen := r.2.read st1.val
     let len := match seen with | .val v => v.items.length | _ => 0
     readItems e x.chain Acc.idx (List.range len) (st1, seen)
